@@ -1785,7 +1785,9 @@ def _dump_qcschema_output(f: TextIO, data: IOData) -> dict:
         output_dict["wavefunction"] = data.extra["output"]["wavefunction"]
     output_dict["provenance"] = _dump_provenance(f, data, "input")
     if "unparsed" in data.extra["input"]:
+        # Fields that were not understood when the file was loaded are passed through,
+        # but they never replace a field that is written from the attributes of the object.
         for k in data.extra["input"]["unparsed"]:
-            output_dict[k] = data.extra["input"]["unparsed"][k]
+            output_dict.setdefault(k, data.extra["input"]["unparsed"][k])
 
     return output_dict
